@@ -156,6 +156,8 @@ def shards(tier, seed, scale=1.0):
         out.append({'name': 'path-enum-%d' % s, 'kind': 'path-enum', 'shard': s, 'of': PS, 'budget': pb})
     for s in range(16):
         out.append({'name': 'hyp-%d' % s, 'kind': 'hyp', 'seed': seed * 1000 + s, 'n': max(10, int(hyp_n * scale))})
+    for s in range(4):
+        out.append({'name': 'grid-%d' % s, 'kind': 'grid', 'shard': s, 'of': 4})
     for s in range(2 if tier == 'quick' else 8):
         out.append({'name': 'fuzz-%d' % s, 'kind': 'fuzz', 'seed': seed * 100 + 50 + s, 'runs': int(fuzz * scale), 'empty_corpus': s % 2 == 1})
     return out
@@ -171,6 +173,8 @@ def run_shard(desc):
         return run_path_enum(desc)
     if k == 'hyp':
         return run_hyp(desc)
+    if k == 'grid':
+        return run_grid(desc)
     if k == 'fuzz':
         # coverage-guided bytes -> (flags, pattern); the translate-vs-match oracle runs inside the atheris target
         from . import c10
@@ -224,6 +228,36 @@ def run_path_enum(desc):
                 check_one('gl', text, None, fl, paths, out, asts=[pp], extra={'ast': A.to_json(pp)})
         if idx % 1999 == s:
             out.sample({'pattern': A.render_path(A.PathPat(False, segs, False, 1)), 'paths': len(paths), 'stream': 'path-enum'})
+    return out
+
+
+GRID_LISTS = [['!skip'], ['!skip', '!other*'], ['*', '!a'], ['-a'], ['*', '-a*'], ['a', 'b'], ['*.txt|!a.txt'], ['!a|!b'], ['**', '!**/a'], ['*/'],
+              ['!*/'], ['{a,b}*', '!b*'], ['!.a'], ['*', '!.*'], ['.*', '!.a'], ['a/**', '!a/b'], ['!(a)'], ['!(a)', '!b'], ['\\!a'], ['!!a']]
+GRID_EXCL = [None, 'a', ['a', 'b*'], '!keep', '.*', '*/']
+GRID_FLAGS = ['NEGATE', 'NEGATEALL', 'NODIR', 'MINUSNEGATE', 'SPLIT', 'DOTMATCH', 'GLOBSTAR', 'EXTMATCH', 'BRACE']
+GRID_NAMES = ['a', 'b', 'ab', 'a.txt', 'b.txt', 'skip', 'other1', 'keep', 'keep/', 'a/', 'a/b', 'a/b/', 'x/a', '.a', '.b', 'x/.a', '!a', '-a', '!keep',
+              '!skip', 'a/.', 'd/..', '.', '..', 'x', 'x/']
+
+
+def run_grid(desc):
+    """Every subset of nine list-related flags on a table of list shapes (exclusion-only lists, inline and exclude= forms,
+    SPLIT/BRACE pieces, directory-looking names for NODIR): translate() must mean what the matcher does."""
+    out = Outcome()
+    out.exhaustive = True
+    s, S = desc['shard'], desc['of']
+    idx = 0
+    for pats in GRID_LISTS:
+        for ex in GRID_EXCL:
+            for i in range(1 << len(GRID_FLAGS)):
+                idx += 1
+                if idx % S != s:
+                    continue
+                names = [n for j, n in enumerate(GRID_FLAGS) if i >> j & 1]
+                for mode in ('fn', 'gl'):
+                    table = util.FN_FLAGS if mode == 'fn' else util.GL_FLAGS
+                    fl = util.flags_of([n for n in names if n in table], table)
+                    check_one(mode, list(pats), ex, fl, GRID_NAMES, out, stream='grid')
+    out.sample({'stream': 'grid', 'lists': len(GRID_LISTS), 'exclude_forms': len(GRID_EXCL), 'flag_subsets': 1 << len(GRID_FLAGS)})
     return out
 
 
